@@ -1,6 +1,413 @@
-pub fn gen(_seed: u64, _thorough: bool) -> Vec<String> {
-    vec![]
+//! C11 (and the byte accounting of C10): the encoder accepts surfaces only in layout order.
+//!
+//! `E <kind> <w> <h> <d|-> <mips> <px> <format> <mulW> <mulH> <op>...`
+//! ops: w:W:H (write_surface)  k:W:H (write with a cancelled token)  g:0|1 (mipmaps.generate)  f (finish, last)
+use crate::c02::{kind_parse, make_header, Kind, Px};
+use crate::c08::{build_spec, Spec};
+use crate::common::*;
+use dds::header::*;
+use dds::*;
+use std::cell::RefCell;
+use std::io::Write;
+use std::rc::Rc;
+
+#[derive(Clone)]
+struct SharedVec(Rc<RefCell<Vec<u8>>>);
+impl Write for SharedVec {
+    fn write(&mut self, buf: &[u8]) -> std::io::Result<usize> {
+        self.0.borrow_mut().extend_from_slice(buf);
+        Ok(buf.len())
+    }
+    fn flush(&mut self) -> std::io::Result<()> {
+        Ok(())
+    }
 }
-pub fn run(_line: &str) -> Option<(String, Vec<String>)> {
-    None
+
+pub const FORMATS: &[(&str, Format, Px, u32, u32)] = &[
+    ("R8G8B8A8_UNORM", Format::R8G8B8A8_UNORM, Px::F(4), 1, 1),
+    ("BC1_UNORM", Format::BC1_UNORM, Px::B(8, 4, 4), 1, 1),
+    ("R8G8_B8G8_UNORM", Format::R8G8_B8G8_UNORM, Px::B(4, 2, 1), 1, 1),
+    ("NV12", Format::NV12, Px::P(1, 2, 2, 2), 2, 2),
+    ("R8_UNORM", Format::R8_UNORM, Px::F(1), 1, 1),
+    ("BC4_UNORM", Format::BC4_UNORM, Px::B(8, 4, 4), 1, 1),
+    ("P010", Format::P010, Px::P(2, 4, 2, 2), 2, 2),
+];
+
+#[derive(Clone, Debug)]
+enum Op {
+    Write(u32, u32),
+    Cancelled(u32, u32),
+    Gen(bool),
+    Finish,
+}
+impl Op {
+    fn fmt(&self) -> String {
+        match self {
+            Op::Write(w, h) => format!("w:{w}:{h}"),
+            Op::Cancelled(w, h) => format!("k:{w}:{h}"),
+            Op::Gen(b) => format!("g:{}", *b as u8),
+            Op::Finish => "f".into(),
+        }
+    }
+    fn parse(s: &str) -> Option<Op> {
+        let p: Vec<&str> = s.split(':').collect();
+        let n = |i: usize| -> Option<u32> { p.get(i)?.parse().ok() };
+        Some(match p[0] {
+            "w" => Op::Write(n(1)?, n(2)?),
+            "k" => Op::Cancelled(n(1)?, n(2)?),
+            "g" => Op::Gen(n(1)? == 1),
+            "f" => Op::Finish,
+            _ => return None,
+        })
+    }
+}
+
+/// the specification: cursor over the flattened list + byte count
+struct SpecEnc<'a> {
+    spec: &'a Spec,
+    k: usize,
+    written: u64,
+    generate: bool,
+    mul: (u32, u32),
+}
+impl<'a> SpecEnc<'a> {
+    fn size_ok(&self, w: u32, h: u32) -> bool {
+        w % self.mul.0 == 0 && h % self.mul.1 == 0
+    }
+    fn step(&mut self, op: &Op) -> String {
+        let n = self.spec.flat.len();
+        match op {
+            Op::Gen(b) => {
+                self.generate = *b;
+                "ok".into()
+            }
+            Op::Finish => {
+                if self.k == n {
+                    "ok".into()
+                } else {
+                    "MissingSurfaces".into()
+                }
+            }
+            Op::Write(w, h) | Op::Cancelled(w, h) => {
+                if self.k >= n {
+                    return "TooManySurfaces".into();
+                }
+                let (w, h) = if *w == 0 || *h == 0 { (0, 0) } else { (*w, *h) };
+                let s = self.spec.flat[self.k].clone();
+                if (s.w, s.h) != (w, h) {
+                    return "UnexpectedSurfaceSize".into();
+                }
+                if matches!(op, Op::Cancelled(..)) {
+                    return "Cancelled".into();
+                }
+                if !self.size_ok(s.w, s.h) {
+                    return "InvalidSize".into();
+                }
+                self.written += s.len;
+                self.k += 1;
+                if self.generate && !self.spec.is_volume {
+                    // the remaining mip levels of the same element are generated
+                    while self.k < n && self.spec.flat[self.k].level != 0 {
+                        let m = self.spec.flat[self.k].clone();
+                        if !self.size_ok(m.w, m.h) {
+                            return "InvalidSize".into();
+                        }
+                        self.written += m.len;
+                        self.k += 1;
+                    }
+                }
+                "ok".into()
+            }
+        }
+    }
+    fn info(&self) -> String {
+        if self.k < self.spec.flat.len() {
+            let s = &self.spec.flat[self.k];
+            format!("{},{},{},{} more", s.w, s.h, s.len, (s.level != 0) as u8)
+        } else {
+            "- done".into()
+        }
+    }
+}
+
+struct LayoutSpec {
+    kind: Kind,
+    w: u32,
+    h: u32,
+    d: Option<u32>,
+    mips: u32,
+}
+
+fn layouts() -> Vec<LayoutSpec> {
+    let mut v = vec![];
+    let mut push = |kind: Kind, w, h, d, mips| v.push(LayoutSpec { kind, w, h, d, mips });
+    let tex = Kind::Dx10 { cube: false, dim: 2, array: 1 };
+    push(tex.clone(), 4, 4, None, 1);
+    push(tex.clone(), 8, 4, None, 3);
+    push(tex.clone(), 8, 8, None, 4);
+    push(tex.clone(), 6, 2, None, 2);
+    push(tex.clone(), 5, 3, None, 3);
+    push(tex.clone(), 1, 1, None, 1);
+    push(Kind::Dx10 { cube: false, dim: 2, array: 2 }, 4, 4, None, 1);
+    push(Kind::Dx10 { cube: false, dim: 2, array: 3 }, 4, 8, None, 3);
+    push(Kind::Dx10 { cube: false, dim: 2, array: 0 }, 4, 4, None, 2);
+    push(Kind::Dx10 { cube: true, dim: 2, array: 1 }, 4, 4, None, 1);
+    push(Kind::Dx10 { cube: true, dim: 2, array: 1 }, 4, 4, None, 3);
+    push(Kind::Dx9 { caps2: 0x200 | (0b101101 << 10) }, 2, 2, None, 2);
+    push(Kind::Dx10 { cube: false, dim: 3, array: 1 }, 4, 4, Some(1), 1);
+    push(Kind::Dx10 { cube: false, dim: 3, array: 1 }, 4, 4, Some(3), 1);
+    push(Kind::Dx10 { cube: false, dim: 3, array: 1 }, 4, 2, Some(4), 3);
+    push(Kind::Dx9 { caps2: 0x200000 }, 2, 2, Some(2), 2);
+    v
+}
+
+fn variants(spec: &Spec, k: usize, rng: &mut Rng, errors: bool) -> Vec<Op> {
+    let (cw, ch) = if k < spec.flat.len() { (spec.flat[k].w, spec.flat[k].h) } else { (1, 1) };
+    let mut v = vec![Op::Write(cw, ch), Op::Write(cw + 1, ch), Op::Cancelled(cw, ch), Op::Gen(false), Op::Gen(true)];
+    if errors {
+        v.push(Op::Write(ch.wrapping_add(3), cw));
+        v.push(Op::Write(0, ch));
+        v.push(Op::Cancelled(cw + 2, ch));
+        v.push(Op::Write(cw, ch));
+        v.push(Op::Write(cw, ch));
+        let _ = rng;
+    }
+    v
+}
+
+pub fn gen(seed: u64, thorough: bool) -> Vec<String> {
+    let mut rng = Rng::new(seed);
+    let mut out = vec![];
+    let depth = if thorough { 6 } else { 4 };
+    for (li, l) in layouts().iter().enumerate() {
+        for (fi, (fname, _, px, mw, mh)) in FORMATS.iter().enumerate() {
+            if !thorough && (li + fi) % 2 == 1 && fi > 3 {
+                continue;
+            }
+            let spec = build_spec(&l.kind, l.w, l.h, l.d, l.mips, *px);
+            let head = format!(
+                "E {} {} {} {} {} {} {} {} {}",
+                match &l.kind {
+                    Kind::Dx10 { cube, dim, array } => format!("x:{}:{}:{}", *cube as u8, dim, array),
+                    Kind::Dx9 { caps2 } => format!("n:{caps2}"),
+                },
+                l.w,
+                l.h,
+                l.d.map(|x| x.to_string()).unwrap_or("-".into()),
+                l.mips,
+                px.fmt(),
+                fname,
+                mw,
+                mh
+            );
+            // exhaustive trees over the 5 call kinds (finish appended to every leaf and every second inner node)
+            let mut stack: Vec<(SpecState, Vec<Op>)> = vec![(SpecState { k: 0, written: 0, generate: true }, vec![])];
+            while let Some((st, seq)) = stack.pop() {
+                if seq.len() == depth {
+                    let mut s = seq.clone();
+                    s.push(Op::Finish);
+                    out.push(format!("{} {}", head, s.iter().map(|o| o.fmt()).collect::<Vec<_>>().join(" ")));
+                    continue;
+                }
+                for op in variants(&spec, st.k, &mut rng, false) {
+                    let mut se = SpecEnc { spec: &spec, k: st.k, written: st.written, generate: st.generate, mul: (*mw, *mh) };
+                    se.step(&op);
+                    let mut s2 = seq.clone();
+                    s2.push(op);
+                    stack.push((SpecState { k: se.k, written: se.written, generate: se.generate }, s2));
+                }
+            }
+            let nrand = if thorough { 300 } else { 40 };
+            for _ in 0..nrand {
+                let len = rng.range(3, 30) as usize;
+                let mut se = SpecEnc { spec: &spec, k: 0, written: 0, generate: true, mul: (*mw, *mh) };
+                let mut seq = vec![];
+                for _ in 0..len {
+                    let vs = variants(&spec, se.k, &mut rng, true);
+                    let op = rng.pick(&vs).clone();
+                    se.step(&op);
+                    seq.push(op);
+                }
+                if rng.chance(2, 3) {
+                    seq.push(Op::Finish);
+                }
+                out.push(format!("{} {}", head, seq.iter().map(|o| o.fmt()).collect::<Vec<_>>().join(" ")));
+            }
+        }
+    }
+    out
+}
+struct SpecState {
+    k: usize,
+    written: u64,
+    generate: bool,
+}
+
+fn err_name(e: &EncodingError) -> String {
+    match e {
+        EncodingError::TooManySurfaces => "TooManySurfaces".into(),
+        EncodingError::UnexpectedSurfaceSize => "UnexpectedSurfaceSize".into(),
+        EncodingError::MissingSurfaces => "MissingSurfaces".into(),
+        EncodingError::Cancelled => "Cancelled".into(),
+        EncodingError::InvalidSize(..) => "InvalidSize".into(),
+        EncodingError::UnsupportedFormat(_) => "UnsupportedFormat".into(),
+        EncodingError::Layout(e) => format!("err {}", crate::c02::err_name(e)),
+        EncodingError::Io(_) => "Io".into(),
+        _ => "Other".into(),
+    }
+}
+
+pub fn run(line: &str) -> Option<(String, Vec<String>)> {
+    let t = toks(line);
+    if t.len() < 10 || t[0] != "E" {
+        return None;
+    }
+    let kind = kind_parse(t[1])?;
+    let w = p_u32(t[2])?;
+    let h = p_u32(t[3])?;
+    let d = if t[4] == "-" { None } else { Some(p_u32(t[4])?) };
+    let mips = p_u32(t[5])?;
+    let px = Px::parse(t[6])?;
+    let (_, format, fpx, fmw, fmh) = *FORMATS.iter().find(|f| f.0 == t[7])?;
+    let (mw, mh) = (p_u32(t[8])?, p_u32(t[9])?);
+    if fpx != px || (fmw, fmh) != (mw, mh) {
+        return None;
+    }
+    let mut ops = vec![];
+    for o in &t[10..] {
+        ops.push(Op::parse(o)?);
+    }
+    let mut oracle = vec![];
+    // the size multiple the library advertises must be the one of the case line
+    let adv = format.encoding_support().and_then(|s| s.size_multiple()).map(|(a, b)| (a.get(), b.get())).unwrap_or((1, 1));
+    if adv != (mw, mh) {
+        oracle.push(format!("format advertises size multiple {:?}, case says {:?}", adv, (mw, mh)));
+    }
+    let mut header = make_header(&kind, w, h, d, mips)?;
+    // give the header the pixel format of `format` where the header kind can express it
+    let mut header_has_format = true;
+    match &mut header {
+        Header::Dx10(h10) => match DxgiFormat::try_from(format) {
+            Ok(f) => h10.dxgi_format = f,
+            Err(_) => header_has_format = false,
+        },
+        Header::Dx9(h9) => match Header::new_image(1, 1, format).to_dx9() {
+            Some(x) => h9.pixel_format = x.pixel_format,
+            None => header_has_format = false,
+        },
+    }
+    let header_len = 4 + header.byte_len() as u64;
+    let sink = SharedVec(Rc::new(RefCell::new(Vec::new())));
+    let mut enc = match Encoder::new(sink.clone(), format, &header) {
+        Ok(e) => Some(e),
+        Err(e) => return Some((err_name(&e), oracle)),
+    };
+    {
+        let e = enc.as_mut().unwrap();
+        e.options.quality = CompressionQuality::Fast;
+        e.options.parallel = false;
+    }
+    let spec = build_spec(&kind, w, h, d, mips, px);
+    let mut se = SpecEnc { spec: &spec, k: 0, written: 0, generate: true, mul: (mw, mh) };
+    let data_written = |s: &SharedVec| -> i64 { s.0.borrow().len() as i64 - header_len as i64 };
+    let info = |e: &Encoder<SharedVec>| -> String {
+        match e.surface_info() {
+            Some(s) => format!(
+                "{},{},{},{} {}",
+                s.size().width,
+                s.size().height,
+                s.data_len(),
+                s.is_mipmap() as u8,
+                if e.is_done() { "done" } else { "more" }
+            ),
+            None => format!("- {}", if e.is_done() { "done" } else { "more" }),
+        }
+    };
+    let mut parts = vec![format!("new {} {}", info(enc.as_ref().unwrap()), data_written(&sink))];
+    if data_written(&sink) != 0 {
+        oracle.push(format!("header length: {} bytes after new(), expected {}", sink.0.borrow().len(), header_len));
+    }
+    let mut last_info = info(enc.as_ref().unwrap());
+    for (i, op) in ops.iter().enumerate() {
+        let before = (data_written(&sink), last_info.clone());
+        let res: Result<(), EncodingError> = match op {
+            Op::Gen(b) => {
+                enc.as_mut()?.mipmaps.generate = *b;
+                Ok(())
+            }
+            Op::Finish => {
+                let e = enc.take()?;
+                let inf = info(&e);
+                let r = e.finish();
+                last_info = inf;
+                r
+            }
+            Op::Write(iw, ih) | Op::Cancelled(iw, ih) => {
+                let e = enc.as_mut()?;
+                let buf = vec![0x7Fu8; *iw as usize * *ih as usize * 4];
+                let view = ImageView::new(&buf, Size::new(*iw, *ih), ColorFormat::RGBA_U8)?;
+                if matches!(op, Op::Cancelled(..)) {
+                    let token = CancellationToken::new();
+                    token.cancel();
+                    let mut progress = Progress::none().with_cancellation(&token);
+                    e.write_surface_with_progress(view, &mut progress)
+                } else {
+                    e.write_surface(view)
+                }
+            }
+        };
+        if let Some(e) = enc.as_ref() {
+            last_info = info(e);
+        }
+        let rname = match &res {
+            Ok(()) => "ok".to_string(),
+            Err(e) => err_name(e),
+        };
+        // oracle: the specification cursor
+        let sres = se.step(op);
+        if sres != rname {
+            oracle.push(format!("op {i} {}: result {rname}, specification says {sres}", op.fmt()));
+        }
+        if last_info != se.info() {
+            oracle.push(format!("op {i} {}: next surface '{}', specification '{}'", op.fmt(), last_info, se.info()));
+        }
+        if data_written(&sink) != se.written as i64 {
+            oracle.push(format!(
+                "op {i} {}: {} data bytes written, header + layout offset of the next surface is {}",
+                op.fmt(),
+                data_written(&sink),
+                se.written
+            ));
+        }
+        if matches!(rname.as_str(), "TooManySurfaces" | "UnexpectedSurfaceSize" | "Cancelled") && (data_written(&sink), last_info.clone()) != before {
+            oracle.push(format!("op {i} {}: rejected call changed the encoder", op.fmt()));
+        }
+        parts.push(format!("{} {} {}", rname, last_info, data_written(&sink)));
+        if oracle.len() > 4 || enc.is_none() {
+            break;
+        }
+    }
+    // after a successful finish the file must be complete and re-readable
+    if let Some(last) = ops.last() {
+        if matches!(last, Op::Finish) && parts.last().map(|p| p.starts_with("ok ")).unwrap_or(false) {
+            let bytes = sink.0.borrow().clone();
+            if bytes.len() as u64 != header_len + spec.total {
+                oracle.push(format!("finished file has {} bytes, expected {}", bytes.len(), header_len + spec.total));
+            }
+            if header_has_format {
+              match Decoder::new(std::io::Cursor::new(&bytes)) {
+                Ok(dec) => {
+                    if dec.layout().data_len() != spec.total {
+                        oracle.push("re-opened layout has a different data length".into());
+                    }
+                    if dec.header() != &header {
+                        oracle.push("re-opened header differs".into());
+                    }
+                }
+                Err(_) => oracle.push("finished file cannot be re-opened".into()),
+              }
+            }
+        }
+    }
+    Some((parts.join(" | "), oracle))
 }
